@@ -28,6 +28,19 @@ shape in which two text-indexing transactions both commit in reality):
   T3  `indexed_count` = a Length subclass whose `_p_resolveConflict` keeps the new state         caught
   T4  `_add_wordinfo` / `_mass_add_wordinfo` copy an IFBTree posting of exactly 4 members into a new object
       (the old one is left as it is - the text index's analogue of D20)                          caught
+Builder wt_strong4: modes default-thresholds (10% of the cases: thr 64 / DICT_CUTOFF 10, 60-66 documents under
+the contended keyword / facet / value / text, one side reaches 64, the other changes the same postings) and
+grown-then-shrunk (10%: a text / keyword / facet posting grows to cutoff..cutoff+3 members - an IFBTree / TreeSet
+from cutoff+1 / thr on - and shrinks to 1-5 survivors, DICT_CUTOFF 2/3/10; one side removes all or some survivors -
+never the smallest docid alone -, the other indexes a new document with the same text; with DICT_CUTOFF 10 twelve
+padding documents share one text so that every posting in the `_wordinfo` bucket is a tree).
+  seeded C19_E  (two cooperating edits of _mass_add_wordinfo / _del_wordinfo)      MISSED before, now caught
+  seeded C19_F  (FacetIndex Set -> TreeSet copy at the default threshold)          MISSED before, now caught
+  M19a the D20 repair (`word_idx.clear()`) only when tree_threshold < 64                          caught
+  M19b _mass_add_wordinfo turns an IFBTree posting with < DICT_CUTOFF//2+1 members back into a dict (needs
+       DICT_CUTOFF >= 4, a posting shrunk to 2+ members and a partial removal)                    caught
+  M19c _del_wordinfo drops the `_wordinfo` entry of a one-member IFBTree without emptying the tree   caught
+  M19d FacetIndex.index_doc replaces the posting by a TreeSet copy at exactly 64 members            caught
 """
 import importlib
 import os
@@ -68,7 +81,11 @@ RULE = ("a committed base state (0-12 operations on a catalog with field, keywor
         "and query battery - with an in-memory catalog that ran the base and then the committed transactions "
         "one after the other; the same operations are replayed on the object-level Lean model (field, keyword, "
         "facet, Okapi-text and cosine-text index as heaps of persistent objects) whose merge must succeed whenever both real commits did, "
-        "with the same stored state. non-trivial = both transactions change something and at least one posting / "
+        "with the same stored state. Modes (quick, 640 cases): small 32%, padded 16%, padded-directed 18%, "
+        "padded-trees 8%, padded-trees-directed 7%, default-thresholds 10% (tree_threshold 64, DICT_CUTOFF 10, "
+        "60-66 documents per contended posting, one side reaches 64), grown-then-shrunk 10% (postings that became "
+        "IFBTrees / TreeSets and shrank to 1-5 members, DICT_CUTOFF 2/3/10; removal of the survivors against a new "
+        "member). non-trivial = both transactions change something and at least one posting / "
         "word is shared between them")
 LEVEL_TEXT = ("Lean 4: (1) generic optimistic commit with three-way merges: merged = serial when every doubly "
               "written position merges and the second transaction read nothing the first wrote; (2) per-index "
